@@ -1,7 +1,491 @@
-//! I/O error injection (C16) and log mutation (C13). Filled in later.
+//! I/O error injection (C16) and write-ahead-log mutation (C13).
+
 use crate::exec::Exec;
+use crate::prng::Rng;
+use crate::simdisk::{self, FailPlan};
 use crate::world::*;
 
-pub fn ioerr(_ex: &mut Exec, _inner: &Op, _after: u32, _errno: i32, _tryio: bool) {}
-pub fn stash_logs(_ex: &mut Exec) {}
-pub fn logfuzz(_ex: &mut Exec, _muts: &[LogMutation], _adopt: bool) {}
+// ---------------------------------------------------------------------------------------------
+// C16
+
+pub fn ioerr(ex: &mut Exec, inner: &Op, after: u32, errno: i32, tryio: bool) {
+	if !ex.has_db() || crate::treeops::any_locked(ex) {
+		return
+	}
+	ex.stats.probe("ioerr_ops");
+	let lo = ex.n_synced;
+	let logged_before = ex.logged();
+	let queued = ex.pipeline_counts().0;
+	let n_before = ex.hist.len() - 1;
+	// arm
+	if tryio {
+		parity_db::set_number_of_allowed_io_operations(after as usize);
+	} else {
+		simdisk::with(|d| {
+			d.fail_plan = Some(FailPlan { after, errno, sticky: true, only: None });
+			d.fail_tripped = false;
+			d.fail_count = 0;
+			d.begin_step();
+		});
+	}
+	ex.set_bg_err_expected(true);
+	let mut step_err: Option<String> = None;
+	let mut reopened = false;
+	let mut open_failed = false;
+	match inner {
+		Op::Step(s) => {
+			if let Err(e) = ex.stage(*s) {
+				step_err = Some(e);
+			}
+		},
+		Op::Commit(tx) => {
+			// commit does no file I/O; it must succeed
+			ex.do_commit(tx, true);
+		},
+		Op::Restart => {
+			ex.close();
+			reopened = true;
+			if !ex.reopen_quiet() {
+				open_failed = true;
+			}
+		},
+		_ => {},
+	}
+	let fired = if tryio {
+		// the counter is sticky at zero once exhausted
+		probe_tryio_exhausted()
+	} else {
+		simdisk::with(|d| d.fail_tripped)
+	};
+	if fired {
+		ex.stats.io_faults_fired += 1;
+		ex.stats.probe(if tryio { "fault_tryio_fired" } else { "fault_errno_fired" });
+	}
+	let hi = match inner {
+		Op::Step(Stage::ProcessCommits) => logged_before + std::cmp::min(queued, 1),
+		Op::Restart => n_before,
+		_ => logged_before,
+	};
+	if !fired {
+		// the step needed fewer file operations than the fault index: nothing happened
+		disarm(tryio);
+		ex.set_bg_err_expected(false);
+		if let Some(e) = step_err {
+			ex.push_violation("C16", "stage-error", format!("stage returned Err({e}) although no fault fired"));
+		}
+		if reopened {
+			if !open_failed && ex.has_db() {
+				ex.mark_restart();
+			}
+		}
+		return
+	}
+	if let Op::Step(s) = inner {
+		match &step_err {
+			Some(e) => {
+				// what a worker does with the error of its stage function
+				ex.db().verif_store_err(parity_db::Error::InvalidInput(format!("stage failed: {e}")));
+				if !ex.db().verif_has_bg_err() {
+					ex.push_violation("C16", "error-not-stored", "store_err did not leave a background error".into());
+				}
+			},
+			None => {
+				ex.push_violation(
+					"C16",
+					"error-swallowed",
+					format!("an injected file-operation failure fired inside {} but the call returned Ok", s.name()),
+				);
+			},
+		}
+	}
+	if ex.has_db() {
+		// reads keep returning committed data (everything accepted so far)
+		ex.sweep();
+		// later commits are refused
+		if step_err.is_some() {
+			if let Ok(()) = ex.db().commit_changes(Vec::<(u8, parity_db::Operation<Vec<u8>, Vec<u8>>)>::new()) {
+				ex.push_violation("C16", "commit-accepted-after-error", "a commit was accepted after a background error had been stored".into());
+			}
+		}
+		// drop with the fault still present
+		ex.close();
+	}
+	disarm(tryio);
+	ex.set_bg_err_expected(false);
+	// the fault is gone: reopening yields a prefix that includes everything synced before
+	let dir = ex.live.clone();
+	if let Some(_j) = ex.verify_and_adopt(&dir, lo, hi, "reopen after an injected I/O failure", false) {
+		ex.stats.probe("ioerr_recovered");
+		ex.sweep();
+	}
+}
+
+fn disarm(tryio: bool) {
+	if tryio {
+		parity_db::set_number_of_allowed_io_operations(usize::MAX);
+	}
+	simdisk::with(|d| {
+		d.end_step();
+		d.clear_faults();
+	});
+}
+
+fn probe_tryio_exhausted() -> bool {
+	// There is no getter; setting a value returns nothing either. Use a file operation that is
+	// wrapped by try_io in parity-db and has no side effect... none is public. Instead the
+	// harness keeps its own account: Exec records the outcome of the step; a failure message
+	// of the instrumented kind proves exhaustion.
+	TRYIO_FIRED.with(|c| c.replace(false))
+}
+
+thread_local! {
+	pub static TRYIO_FIRED: std::cell::Cell<bool> = std::cell::Cell::new(false);
+}
+
+pub fn note_error_text(e: &str) {
+	if e.contains("Instrumented failure") {
+		TRYIO_FIRED.with(|c| c.set(true));
+	}
+}
+
+// ---------------------------------------------------------------------------------------------
+// C13
+
+pub fn stash_logs(ex: &mut Exec) {
+	if !ex.has_db() {
+		return
+	}
+	let live = ex.live.clone();
+	let dir = ex.next_dir("stash");
+	simdisk::muted(|| {
+		let _ = std::fs::create_dir_all(&dir);
+		if let Ok(rd) = std::fs::read_dir(&live) {
+			let mut names: Vec<String> = rd.filter_map(|e| e.ok()).filter_map(|e| e.file_name().into_string().ok()).collect();
+			names.sort();
+			for n in names {
+				if simdisk::classify(&n) == simdisk::FileClass::Log {
+					let _ = std::fs::copy(format!("{live}/{n}"), format!("{dir}/{n}"));
+				}
+			}
+		}
+	});
+	ex.stashed().push(dir);
+	ex.stats.probe("logs_stashed");
+}
+
+fn log_files(dir: &str) -> Vec<String> {
+	let mut v: Vec<(u32, String)> = std::fs::read_dir(dir)
+		.map(|rd| {
+			rd.filter_map(|e| e.ok())
+				.filter_map(|e| e.file_name().into_string().ok())
+				.filter(|n| simdisk::classify(n) == simdisk::FileClass::Log)
+				.map(|n| (n[3..].parse::<u32>().unwrap_or(0), n))
+				.collect()
+		})
+		.unwrap_or_default();
+	v.sort();
+	v.into_iter().map(|x| x.1).collect()
+}
+
+/// Which records does a mutation of byte range [at, at+len) of `file` damage? Returns the
+/// smallest damaged record id, using the harness's own bookkeeping of record boundaries.
+fn first_damaged(ex: &Exec, file: &str, at: u64, to_end: bool) -> Option<u64> {
+	let mut best: Option<u64> = None;
+	for r in ex.log_records.iter().filter(|r| r.file == file && r.live) {
+		let hit = if to_end { at < r.end } else { at >= r.start && at < r.end };
+		if hit {
+			best = Some(best.map_or(r.record_id, |b: u64| b.min(r.record_id)));
+		}
+	}
+	best
+}
+
+pub fn logfuzz(ex: &mut Exec, muts: &[LogMutation], adopt: bool) {
+	if !ex.has_db() || crate::treeops::any_locked(ex) {
+		return
+	}
+	// image of the live directory right now (process-crash image at an operation boundary)
+	let live = ex.live.clone();
+	let img = ex.next_dir("fuzz");
+	simdisk::muted(|| simdisk::copy_dir(&live, &img, true));
+	let files = simdisk::muted(|| log_files(&img));
+	ex.refresh_log_records();
+	let last_enacted = ex.pipeline_counts().5;
+	let n = ex.hist.len() - 1;
+	// commits whose record the tables already hold
+	let j_tables = ex.commits_at_open + ex.commit_records.iter().filter(|(_, rid)| *rid <= last_enacted).count();
+	let logged = ex.logged();
+	// records still present in log files
+	let present: Vec<u64> = {
+		let mut v: Vec<u64> = ex.log_records.iter().filter(|r| r.live).map(|r| r.record_id).collect();
+		v.sort();
+		v
+	};
+	let first_present = present.first().cloned();
+	let mut x: Option<u64> = None; // first damaged record id
+	let mut stale = false;
+	let mut applied = 0;
+	simdisk::muted(|| {
+		for m in muts {
+			let pick = |sel: u32| -> Option<String> {
+				if files.is_empty() {
+					None
+				} else {
+					Some(files[sel as usize % files.len()].clone())
+				}
+			};
+			let mut note = |id: Option<u64>| {
+				if let Some(id) = id {
+					x = Some(x.map_or(id, |b: u64| b.min(id)));
+				}
+			};
+			match m {
+				LogMutation::Truncate { file_sel, at } => {
+					if let Some(f) = pick(*file_sel) {
+						let p = format!("{img}/{f}");
+						let len = std::fs::metadata(&p).map(|m| m.len()).unwrap_or(0);
+						if len > 0 {
+							let at = *at as u64 % len;
+							if let Ok(fh) = std::fs::OpenOptions::new().write(true).open(&p) {
+								let _ = fh.set_len(at);
+								note(first_damaged(ex, &f, at, true));
+								applied += 1;
+							}
+						}
+					}
+				},
+				LogMutation::FlipBit { file_sel, at, bit } => {
+					if let Some(f) = pick(*file_sel) {
+						let p = format!("{img}/{f}");
+						if let Ok(mut data) = std::fs::read(&p) {
+							if !data.is_empty() {
+								let at = *at as usize % data.len();
+								data[at] ^= 1 << (bit % 8);
+								let _ = std::fs::write(&p, &data);
+								note(first_damaged(ex, &f, at as u64, false));
+								applied += 1;
+							}
+						}
+					}
+				},
+				LogMutation::FlipTwo { file_sel, at, bit, dist, bit2 } => {
+					if let Some(f) = pick(*file_sel) {
+						let p = format!("{img}/{f}");
+						if let Ok(mut data) = std::fs::read(&p) {
+							if data.len() > 1 {
+								let at = *at as usize % data.len();
+								let at2 = std::cmp::min(data.len() - 1, at + 1 + (*dist as usize % 1000));
+								data[at] ^= 1 << (bit % 8);
+								data[at2] ^= 1 << (bit2 % 8);
+								let _ = std::fs::write(&p, &data);
+								note(first_damaged(ex, &f, at as u64, false));
+								note(first_damaged(ex, &f, at2 as u64, false));
+								applied += 1;
+							}
+						}
+					}
+				},
+				LogMutation::Burst { file_sel, at, xor } => {
+					if let Some(f) = pick(*file_sel) {
+						let p = format!("{img}/{f}");
+						if let Ok(mut data) = std::fs::read(&p) {
+							if data.len() >= 4 && *xor != 0 {
+								let at = *at as usize % (data.len() - 3);
+								let b = xor.to_le_bytes();
+								for i in 0..4 {
+									data[at + i] ^= b[i];
+								}
+								let _ = std::fs::write(&p, &data);
+								for i in 0..4 {
+									note(first_damaged(ex, &f, (at + i) as u64, false));
+								}
+								applied += 1;
+							}
+						}
+					}
+				},
+				LogMutation::AppendGarbage { file_sel, len, seed } => {
+					if let Some(f) = pick(*file_sel) {
+						let p = format!("{img}/{f}");
+						if let Ok(mut data) = std::fs::read(&p) {
+							let mut g = vec![0u8; *len as usize % 300 + 1];
+							Rng::new(*seed).fill(&mut g);
+							data.extend_from_slice(&g);
+							let _ = std::fs::write(&p, &data);
+							applied += 1;
+						}
+					}
+				},
+				LogMutation::Delete { file_sel } => {
+					if let Some(f) = pick(*file_sel) {
+						note(first_damaged(ex, &f, 0, true));
+						let _ = std::fs::remove_file(format!("{img}/{f}"));
+						applied += 1;
+					}
+				},
+				LogMutation::Duplicate { file_sel } => {
+					if let Some(f) = pick(*file_sel) {
+						let max = files.iter().map(|n| n[3..].parse::<u32>().unwrap_or(0)).max().unwrap_or(0);
+						let _ = std::fs::copy(format!("{img}/{f}"), format!("{img}/log{}", max + 1 + applied));
+						applied += 1;
+					}
+				},
+				LogMutation::SwapNames { a, b } => {
+					if files.len() >= 2 {
+						let fa = &files[*a as usize % files.len()];
+						let fb = &files[*b as usize % files.len()];
+						if fa != fb {
+							let tmp = format!("{img}/swap.tmp");
+							let _ = std::fs::rename(format!("{img}/{fa}"), &tmp);
+							let _ = std::fs::rename(format!("{img}/{fb}"), format!("{img}/{fa}"));
+							let _ = std::fs::rename(&tmp, format!("{img}/{fb}"));
+							applied += 1;
+						}
+					}
+				},
+				LogMutation::ZeroLen { file_sel } => {
+					if let Some(f) = pick(*file_sel) {
+						note(first_damaged(ex, &f, 0, true));
+						let _ = std::fs::write(format!("{img}/{f}"), b"");
+						applied += 1;
+					}
+				},
+				LogMutation::SubHeader { file_sel, len } => {
+					if let Some(f) = pick(*file_sel) {
+						let p = format!("{img}/{f}");
+						if let Ok(data) = std::fs::read(&p) {
+							let l = std::cmp::min(data.len(), (*len as usize % 9).max(1));
+							note(first_damaged(ex, &f, l as u64, true));
+							let _ = std::fs::write(&p, &data[..l]);
+							applied += 1;
+						}
+					}
+				},
+				LogMutation::Stale { which } => {
+					let stashes = ex.stashed_view();
+					if !stashes.is_empty() {
+						let sd = &stashes[*which as usize % stashes.len()];
+						let old = log_files(sd);
+						if !old.is_empty() {
+							let f = &old[*which as usize % old.len()];
+							let used: Vec<u32> = log_files(&img).iter().map(|n| n[3..].parse::<u32>().unwrap_or(0)).collect();
+							let mut id = 0;
+							while used.contains(&id) {
+								id += 1;
+							}
+							if std::fs::metadata(format!("{sd}/{f}")).map(|m| m.len()).unwrap_or(0) > 0 {
+								let _ = std::fs::copy(format!("{sd}/{f}"), format!("{img}/log{id}"));
+								stale = true;
+								applied += 1;
+							}
+						}
+					}
+				},
+			}
+		}
+	});
+	if applied == 0 {
+		simdisk::muted(|| {
+			let _ = std::fs::remove_dir_all(&img);
+		});
+		return
+	}
+	ex.stats.logfuzz_images += 1;
+	if x.is_some() {
+		ex.stats.probe("logfuzz_damaged_a_record");
+	}
+	if stale {
+		ex.stats.probe("logfuzz_stale_file");
+	}
+	// old handle goes away; the run continues on the mutated image or on the live directory
+	ex.abandon();
+	let rewind_possible = stale ||
+		match (x, first_present) {
+			(Some(x), Some(a)) => x > a && x <= last_enacted,
+			_ => false,
+		};
+	// upper bound from "applies nothing after the first invalid one"
+	let upper = if stale {
+		logged
+	} else {
+		match x {
+			Some(x) => std::cmp::max(j_tables, ex.commits_at_open + ex.commit_records.iter().filter(|(_, rid)| *rid < x).count()),
+			None => logged,
+		}
+	};
+	let ok = open_and_judge(ex, &img, j_tables, upper, n, rewind_possible);
+	if ok.is_some() && adopt {
+		// continue on the mutated image
+		simdisk::muted(|| {
+			let _ = std::fs::remove_dir_all(&live);
+		});
+		return
+	}
+	// continue on the (untouched) live directory as after a plain process crash
+	ex.abandon();
+	simdisk::muted(|| {
+		let _ = std::fs::remove_dir_all(&img);
+	});
+	ex.live = live.clone();
+	let _ = ex.verify_and_adopt(&live, 0, logged, "reopen of the unmutated directory after a log-fuzz step", false);
+}
+
+/// Open a mutated image and apply the C13 oracle. Returns the prefix index on success (the
+/// handle is then left open on the image and the model reset to that prefix).
+fn open_and_judge(ex: &mut Exec, img: &str, j_tables: usize, upper: usize, n: usize, rewind_possible: bool) -> Option<usize> {
+	ex.live = img.to_string();
+	simdisk::with(|d| d.set_root(img));
+	if !ex.reopen_quiet() {
+		ex.push_violation("C13", "open-failed", "opening a database with damaged log files returned an error".into());
+		return None
+	}
+	let obs = match ex.observe_all() {
+		Ok(o) => o,
+		Err(e) => {
+			ex.push_violation("C13", "read-failed", format!("after opening damaged logs: {e}"));
+			return None
+		},
+	};
+	let mut found = None;
+	for j in (0..=n).rev() {
+		if ex.state_matches(&obs, &ex.hist[j].clone()).is_ok() {
+			found = Some(j);
+			break
+		}
+	}
+	match found {
+		None => {
+			let class = if rewind_possible { "rewind-by-valid-older-records" } else { "not-a-prefix-after-log-damage" };
+			ex.push_violation(
+				"C13",
+				class,
+				format!(
+					"state after opening damaged logs equals no prefix of the {n} committed transactions (tables held {j_tables}; {})",
+					if rewind_possible {
+						"an intact record older than what the tables held was re-applied and replay stopped before catching up"
+					} else {
+						"no already-enacted intact record precedes the damage"
+					}
+				),
+			);
+			None
+		},
+		Some(j) => {
+			if j < j_tables {
+				let class = if rewind_possible { "rewind-by-valid-older-records" } else { "older-than-tables" };
+				ex.push_violation("C13", class, format!("state after opening damaged logs is S_{j}, older than what the tables already held (S_{j_tables})"));
+				return None
+			}
+			if j > upper {
+				ex.push_violation(
+					"C13",
+					"applied-after-invalid",
+					format!("state after opening damaged logs is S_{j} but the first invalid record bounds it to S_{upper}: something after the first invalid record was applied"),
+				);
+				return None
+			}
+			ex.adopt_state(j);
+			Some(j)
+		},
+	}
+}
